@@ -542,9 +542,7 @@ func (c *Coins) get(id types.CoinID) *Model {
 		coin.lock.Unlock()
 	}
 
-	c.setToMap(id, coin)
-
-	return coin
+	return c.setToMapIfAbsent(id, coin)
 }
 
 func (c *Coins) getSymbolInfo(symbol types.CoinSymbol) *SymbolInfo {
@@ -563,9 +561,7 @@ func (c *Coins) getSymbolInfo(symbol types.CoinSymbol) *SymbolInfo {
 		panic(fmt.Sprintf("failed to decode coin symbol %s: %s", symbol.String(), err))
 	}
 
-	c.setSymbolInfoToMap(info, symbol)
-
-	return info
+	return c.setSymbolInfoToMapIfAbsent(info, symbol)
 }
 
 func (c *Coins) getBySymbol(symbol types.CoinSymbol) []types.CoinID {
@@ -584,9 +580,7 @@ func (c *Coins) getBySymbol(symbol types.CoinSymbol) []types.CoinID {
 		panic(fmt.Sprintf("failed to decode coins by symbol %s: %s", symbol, err))
 	}
 
-	c.setSymbolToMap(coins, symbol)
-
-	return coins
+	return c.setSymbolToMapIfAbsent(coins, symbol)
 }
 
 func (c *Coins) markDirty(id types.CoinID) {
@@ -662,6 +656,20 @@ func (c *Coins) setToMap(id types.CoinID, model *Model) {
 	c.list[id] = model
 }
 
+// setToMapIfAbsent caches a record that was just loaded from the tree unless another goroutine
+// (an API query running next to block execution) has loaded and cached the same record in the
+// meantime; it returns the cached object, so that every caller works on one and the same object.
+func (c *Coins) setToMapIfAbsent(id types.CoinID, model *Model) *Model {
+	c.lock.Lock()
+	defer c.lock.Unlock()
+
+	if existing := c.list[id]; existing != nil {
+		return existing
+	}
+	c.list[id] = model
+	return model
+}
+
 func (c *Coins) getSymbolInfoFromMap(symbol types.CoinSymbol) (*SymbolInfo, bool) {
 	c.lock.RLock()
 	defer c.lock.RUnlock()
@@ -675,6 +683,30 @@ func (c *Coins) setSymbolInfoToMap(info *SymbolInfo, symbol types.CoinSymbol) {
 	defer c.lock.Unlock()
 
 	c.symbolsInfoList[symbol] = info
+}
+
+// setSymbolInfoToMapIfAbsent is setToMapIfAbsent for the ticker-info cache.
+func (c *Coins) setSymbolInfoToMapIfAbsent(info *SymbolInfo, symbol types.CoinSymbol) *SymbolInfo {
+	c.lock.Lock()
+	defer c.lock.Unlock()
+
+	if existing, ok := c.symbolsInfoList[symbol]; ok && existing != nil {
+		return existing
+	}
+	c.symbolsInfoList[symbol] = info
+	return info
+}
+
+// setSymbolToMapIfAbsent is setToMapIfAbsent for the ticker → coin ids cache.
+func (c *Coins) setSymbolToMapIfAbsent(coins []types.CoinID, symbol types.CoinSymbol) []types.CoinID {
+	c.lock.Lock()
+	defer c.lock.Unlock()
+
+	if existing, ok := c.symbolsList[symbol]; ok {
+		return existing
+	}
+	c.symbolsList[symbol] = coins
+	return coins
 }
 
 func (c *Coins) getSymbolFromMap(symbol types.CoinSymbol) ([]types.CoinID, bool) {
